@@ -12,6 +12,18 @@ calls are first calls of the join, the separator's only when the element can mat
 empty.  Graphs in which the separator of a join with an element that can match empty contributes a first call are counted
 (`join_corner_nullable_element`) and not judged; `join_sep_decisive` counts the judged graphs whose verdict depends on the
 separator of a join with a consuming element NOT being a first call.
+
+Rule includes (`>rule`) and based rules (`b < a`) are items of the rule graphs as well: `>rule` stands for that rule's right-hand
+side in place, a based rule parses its base's right-hand side and then its own.  An exhaustive slice (rule a = every small
+body, rule b defined after it holds `>a` at every position of every sequence of 2 items over {>a, calls, 'x', ['x'], {'x'}} and
+of 3 items over {calls, 'x', ['x']}, alone or next to a second option; `m = >a ; b < m = ...`; `b < a = >a i | i >a`) and every
+third random graph (includes of earlier rules at any position of the top-level sequences, an only-included rule `s` that
+matches empty by syntax, based rules, half of them on a rule that is a bare include).  REF analyses the EXPANDED grammar
+(`expanded`): so a call that starts an included right-hand side is a first call of the including rule, an included
+right-hand side that can match empty lets the scan go on, and a call to a nullable rule inside an included prefix makes the
+graph `hidden` as anywhere else.  TatSu requires the included / base rule to be defined first; only such orders are generated.
+`include_decisive` / `include_item_decisive` count the judged graphs whose verdict depends on looking into the includes (all /
+those standing as one item of a longer sequence, the base of a based rule being the first item of its sequence).
 """
 from __future__ import annotations
 
@@ -32,7 +44,10 @@ RULE = ('cases = rule graphs: exhaustive slice = every grammar of 1 rule (bodies
         '<=6 rules with longer sequences/choices, nested optionals and closures; join slice = every 2-rule graph in which rule a is J or J <call> '
         '(J = any of the six join/gather forms, separator in {call a, call b, \'y\'}, element in {call a, call b, \'x\'}) and rule b a body of <=2 items or '
         'a choice of two items over {calls, \'x\', [\'x\']}, and every third random graph draws joins (separator/element = call, token, call token, '
-        'token | call token, [token] call) as items; each compiled with left recursion off (detection) '
+        'token | call token, [token] call) as items; include slice = rule a any of the 36 small bodies, then rule b with >a at every position '
+        'of every sequence of 2 items over {>a, call a, call b, \'x\', [\'x\'], {\'x\'}} (alone or with a second option \'x\') and of 3 items (others over '
+        '{call a, call b, \'x\', [\'x\']}), or m = >a ; b < m = <1-2 items>, or b < a = >a i | i >a; every other third random graph draws includes of '
+        'earlier rules at any position of its top-level sequences, an only-included nullable rule and based rules (half on a bare include); each compiled with left recursion off (detection) '
         'and on (flags), then parsed from every rule on the battery {"", x, xx, xxx, y, xy} (+ xyx when the graph has a join); non-trivial = the graph has at least '
         'one left-recursive cycle per the independent analysis; distinct by grammar text')
 ASSUMPTIONS = [
@@ -43,11 +58,13 @@ ASSUMPTIONS = [
     'graphs in which the separator of a join whose element can match empty contributes an edge of the left-call graph are counted and not judged '
     '(TatSu\'s analysis never looks at separators; the element matches empty through a call to a nullable rule, the case the statement sets aside); '
     'no join with a syntactically nullable element is generated',
+    '`>rule` is read as that rule\'s right-hand side in place and `b < a` as <a\'s right-hand side> <b\'s own> (documented meaning of both); the independent '
+    'analysis runs on the grammar expanded that way; included and base rules are defined before their users (TatSu requires it) and are never based rules themselves',
     'in a graph that is only observed (hidden), the battery stops after two unbounded parses',
     '"never recurses without bound" is decided by a rule-invocation budget far above the calibrated need and by RecursionError under a limit (3000) far above the bounded depth',
 ]
 EXHAUSTIVE = {'quick': 'all 1-rule graphs (bodies: choices of <=2 sequences of <=2 items) and all 2-rule graphs with bodies of <=2 items, items = calls, token, optional, closure, positive closure, negative lookahead; all 5832 2-rule graphs of the join slice '
-                       '(6 join/gather forms x 3 separators x 3 elements x {J, J a, J b} for rule a, 36 small bodies for rule b); battery of 6 (7) inputs from every rule',
+                       '(6 join/gather forms x 3 separators x 3 elements x {J, J a, J b} for rule a, 36 small bodies for rule b); all 3528 graphs of the include slice (36 bodies of the included rule x 98 including / based rules); battery of 6 (7) inputs from every rule',
               'thorough': 'all 1-rule graphs, all 2-rule graphs with bodies of <=3 items (625681), all 3-rule graphs with bodies of <=2 items sampled 1/4; the join slice in both orders of the two rules (11664)'}
 FLOORS = {
     'quick': {'graphs': 15000, 'lrec_graphs': 2000, 'detected_ok': 1500, 'clean_ok': 700, 'parses': 60000,
@@ -56,7 +73,13 @@ FLOORS = {
               'join_graphs': 5000, 'join_graphs_sep_with_call': 3500, 'join_graphs_element_with_call': 3500, 'join_judged': 4000,
               'join_judged_clean': 1000, 'join_judged_lrec': 2500, 'join_sep_decisive': 800, 'join_sep_decisive_clean': 400,
               'join_graphs:join': 900, 'join_graphs:join+': 900, 'join_graphs:gather': 900, 'join_graphs:gather+': 900,
-              'join_graphs:ljoin+': 900, 'join_graphs:rjoin+': 900},
+              'join_graphs:ljoin+': 900, 'join_graphs:rjoin+': 900,
+              'include_graphs': 3800, 'include_judged': 2500, 'include_judged_lrec': 1200, 'include_judged_clean': 500,
+              'include_decisive': 600, 'include_item_decisive': 400,
+              'include_graphs:include_item_first': 1500, 'include_graphs:include_item_middle': 800, 'include_graphs:include_item_last': 1500,
+              'include_graphs:include_item_nullable': 800, 'include_graphs:include_item_nullable_then_call': 300,
+              'include_graphs:include_item_after_nullable_item': 300, 'include_graphs:include_item_before_nullable_item': 300,
+              'include_graphs:based': 1000, 'include_graphs:based_on_include': 700, 'include_graphs:based_with_include_in_rhs': 300},
     'thorough': {'graphs': 150000, 'lrec_graphs': 50000, 'parses': 1500000, 'join_graphs': 20000, 'join_judged': 15000,
                  'join_sep_decisive': 3000, 'join_sep_decisive_clean': 1000},
 }
@@ -120,6 +143,122 @@ def partner_bodies(n):
     return [((i,),) for i in it] + [((i, j),) for i in it for j in it] + [((i,), (j,)) for i in it for j in it]
 
 
+# ---- rule includes (`>rule` stands for the right-hand side of that rule, in place) and based rules (`b < a` parses a's
+# right-hand side, then its own) as items of the rule graphs.  The included / base rule is always defined first.
+def include_slice():
+    """(rules) of the exhaustive include slice: rule a (included) = every partner body; then
+    b = every sequence of 2 items over {>a, call a, call b, 'x', ['x'], {'x'}} with >a in it, alone or with a second option 'x',
+    b = every sequence of 3 items with >a at one position and the others over {call a, call b, 'x', ['x']},
+    m = >a ; b < m = <1 or 2 items over {call a, call b, 'x', ['x']}>   (the base of the based rule is an include),
+    b < a = >a <item> | <item> >a  (an include inside the right-hand side of a based rule)"""
+    inc = L.Include('a')
+    j5 = [L.Call('a'), L.Call('b'), L.Tok('x'), L.Opt(L.Tok('x')), L.Clo(L.Tok('x'))]
+    j4 = j5[:4]
+    two = [(inc, i) for i in j5] + [(i, inc) for i in j5] + [(inc, inc)]
+    three = [(inc, i, j) for i in j4 for j in j4] + [(i, inc, j) for i in j4 for j in j4] + [(i, j, inc) for i in j4 for j in j4]
+    tails = [(i,) for i in j4] + [(i, j) for i in j4 for j in j4]
+    for y in partner_bodies(2):
+        a = L.Rule('a', mk_body(y))
+        for s in two:
+            yield [a, L.Rule('b', L.Seq(s))]
+            yield [a, L.Rule('b', L.Choice((L.Seq(s), L.Tok('x'))))]
+        for s in three:
+            yield [a, L.Rule('b', L.Seq(s))]
+        for s in tails:
+            yield [a, L.Rule('m', inc), L.Rule('b', mk_body((s,)), base='m')]
+        for i in j4:
+            yield [a, L.Rule('b', L.Seq((inc, i)), base='a')]
+            yield [a, L.Rule('b', L.Seq((i, inc)), base='a')]
+
+
+OPAQUE = L.Tok('\x01')   # stands for "an element that consumes input and holds no call"
+
+
+def expanded(g, opaque=None):
+    """the grammar the independent analysis reads: every `>rule` replaced by that rule's right-hand side in place, every
+    based rule by <base's right-hand side> <own right-hand side> (the documented meaning of both).  Includes and bases always
+    refer to earlier rules, so this ends.  opaque='all' / 'items' instead reads every include / every include that is one
+    item of a longer sequence (the base's right-hand side is the first item of the based rule's sequence) as OPAQUE: used
+    only to COUNT the graphs whose verdict depends on looking into them."""
+    own = {}
+    rules = []
+
+    def ex(e, in_seq):
+        if isinstance(e, L.Include):
+            if opaque == 'all' or (opaque == 'items' and in_seq):
+                return OPAQUE
+            if opaque == 'boxed' and in_seq == 'boxed':
+                return L.Seq((own[e.name], OPAQUE))   # same first calls, but never matching empty
+            return own[e.name]
+        kids = L.children(e)
+        if not kids:
+            return e
+        inseq = isinstance(e, L.Seq) and len(e.items) >= 2
+        if opaque == 'boxed':
+            inseq = False if isinstance(e, L.Seq) else 'boxed'   # the items of a sequence are scanned one by one; anything else is asked as a whole
+        return L.rebuild(e, [ex(k, inseq) for k in kids])
+    for r in g.rules:
+        body = ex(r.body, False)
+        own[r.name] = body
+        if r.base:
+            body = L.Seq((ex(g.rule(r.base).body, True), body))
+        rules.append(L.Rule(r.name, body, r.decorators))
+    return L.Grammar(rules)
+
+
+def include_shapes(g):
+    """what kinds of include / based rule a graph holds (names of counters)"""
+    nul, n = nullable_map(expanded(g))
+    shapes = set()
+    own = {}
+
+    def exb(e):
+        if isinstance(e, L.Include):
+            return own[e.name]
+        kids = L.children(e)
+        return L.rebuild(e, [exb(k) for k in kids]) if kids else e
+    for r in g.rules:
+        own[r.name] = exb(r.body)
+
+    def nullable_inc(e):
+        # the included right-hand side can match empty (by syntax or through calls)
+        return n(own[e.name])
+
+    def seqs_of(r):
+        body = r.body
+        out = []
+        if r.base:
+            out.append((g.rule(r.base).body, body))
+        for e in L.walk(body):
+            if isinstance(e, L.Seq):
+                out.append(e.items)
+        return out
+    for r in g.rules:
+        if r.base:
+            shapes.add('based')
+            if isinstance(g.rule(r.base).body, L.Include):
+                shapes.add('based_on_include')
+            if any(isinstance(e, L.Include) for e in L.walk(r.body)):
+                shapes.add('based_with_include_in_rhs')
+        opts = r.body.opts if isinstance(r.body, L.Choice) else (r.body,)
+        if any(isinstance(o, L.Include) for o in opts) and not r.base:
+            shapes.add('include_whole_option_or_body')
+        for items in seqs_of(r):
+            for k, it in enumerate(items):
+                if not isinstance(it, L.Include):
+                    continue
+                shapes.add('include_item_first' if k == 0 else 'include_item_last' if k == len(items) - 1 else 'include_item_middle')
+                if nullable_inc(it):
+                    shapes.add('include_item_nullable')
+                    if k + 1 < len(items) and any(isinstance(x, L.Call) for x in L.walk(exb(items[k + 1]))):
+                        shapes.add('include_item_nullable_then_call')
+                if k > 0 and all(isinstance(p, (L.Opt, L.Clo)) for p in items[:k]):
+                    shapes.add('include_item_after_nullable_item')
+                if k + 1 < len(items) and isinstance(items[k + 1], (L.Opt, L.Clo)):
+                    shapes.add('include_item_before_nullable_item')
+    return shapes
+
+
 def mk_body(b):
     opts = [s[0] if len(s) == 1 else L.Seq(tuple(s)) for s in b]
     return opts[0] if len(opts) == 1 else L.Choice(tuple(opts))
@@ -144,6 +283,10 @@ def exhaustive(tier):
             if tier == 'thorough':
                 yield idx, L.Grammar([L.Rule('b', mk_body(y)), L.Rule('a', mk_body(x))])
                 idx += 1
+    # include slice: rule a is included by (or is the base of) rule b, defined after it
+    for rules in include_slice():
+        yield idx, L.Grammar(rules)
+        idx += 1
     if tier == 'thorough':
         b3 = bodies(3, 2)
         for x in b3:
@@ -154,11 +297,15 @@ def exhaustive(tier):
                     idx += 1
 
 
-def random_graph(rng, joins=False):
+def random_graph(rng, joins=False, includes=False):
     n = rng.choice([3, 4, 5, 6])
     names = NAMES[:n]
     perm = names[:]
     rng.shuffle(perm)  # leader selection depends on names: permute
+    # includes=True: `>rule` stands as an item (any position) of the top-level sequences, always of a rule defined EARLIER
+    # (the grammar language requires that order); half of these graphs start with a rule `s` that can match empty without
+    # any call and is only ever included, never called (a call to it in a prefix would put the graph outside the statement);
+    # some rules are based rules (`c < b`), half of them on a fresh rule whose whole body is an include (`m3 = >b ; c < m3 = ... ;`)
 
     def join():
         # separators and elements from calls as well as tokens; no element that is syntactically able to match empty
@@ -212,20 +359,37 @@ def random_graph(rng, joins=False):
             return L.PClo(seq(depth - 1))
         return L.Group(L.Choice((seq(depth - 1), seq(depth - 1))))
 
-    def seq(depth):
+    def seq(depth, inc=()):
         k = rng.choice([1, 1, 2, 2, 3])
-        its = [item(depth) for _ in range(k)]
+        if inc:
+            k = rng.choice([1, 2, 2, 3, 3])
+            its = [L.Include(rng.choice(inc)) if rng.random() < 0.25 else item(depth) for _ in range(k)]
+        else:
+            its = [item(depth) for _ in range(k)]
         return its[0] if k == 1 else L.Seq(tuple(its))
 
     rules = []
-    for nm in perm:
+    plain = []   # rules an include or a based rule may refer to: defined earlier, not based themselves
+    if includes and rng.random() < 0.5:
+        rules.append(L.Rule('s', rng.choice([L.Opt(L.Tok('y')), L.Clo(L.Tok('x')), L.Seq((L.Opt(L.Tok('x')), L.Opt(L.Tok('y')))),
+                                             L.Choice((L.Tok('y'), L.Void()))])))
+        plain += ['s', 's']
+    for idx, nm in enumerate(perm):
         k = rng.choice([1, 2, 2, 3])
-        opts = [seq(1) for _ in range(k)]
+        opts = [seq(1, tuple(plain)) for _ in range(k)]
         deco = ()
         if rng.random() < 0.2:
             # caching decorators must not take the left-recursion guard away (model or generated parser)
             deco = rng.choice([('nomemo',), ('nostak',), ('nomemo', 'nostak')])
-        rules.append(L.Rule(nm, opts[0] if k == 1 else L.Choice(tuple(opts)), deco))
+        base = None
+        if plain and rng.random() < 0.15:
+            base = rng.choice(plain)
+            if rng.random() < 0.5:
+                rules.append(L.Rule(f'm{idx}', L.Include(base)))
+                base = f'm{idx}'
+        rules.append(L.Rule(nm, opts[0] if k == 1 else L.Choice(tuple(opts)), deco, base=base))
+        if includes and base is None:
+            plain.append(nm)
     return L.Grammar(rules)
 
 
@@ -235,7 +399,7 @@ def plan(tier, seed):
     for i in range(ke):
         shards.append({'mode': 'exhaustive', 'shard': i, 'of': ke, 'tier': tier, 'seed': seed})
     kr = 6 if tier == 'quick' else 16
-    n = 3000 if tier == 'quick' else 80000
+    n = 2640 if tier == 'quick' else 80000   # (quick: 3000 before the include slice was added; counts rebalanced)
     for i in range(kr):
         shards.append({'mode': 'random', 'shard': i, 'n': n // kr, 'tier': tier, 'seed': seed})
     return shards
@@ -316,12 +480,28 @@ def join_readings(g, lrec, graph):
 
 def check_graph(acc, g, origin):
     from tatsu.exceptions import FailedParse, GrammarError
-    lrec, graph, hidden, nul = left_recursive_rules(g)
-    sccs = left_sccs(g)
+    with_inc = any(r.base for r in g.rules) or any(isinstance(e, L.Include) for r in g.rules for e in L.walk(r.body))
+    # the analysis reads includes and based rules by their documented meaning: the other rule's right-hand side in place
+    ga = expanded(g) if with_inc else g
+    lrec, graph, hidden, nul = left_recursive_rules(ga)
+    sccs = left_sccs(ga)
     acc.count('graphs')
     text = L.grammar_text(g)
-    jr = join_readings(g, lrec, graph)
+    jr = join_readings(ga, lrec, graph)
     battery = BATTERY
+    if with_inc:
+        acc.count('include_graphs')
+        for k in include_shapes(g):
+            acc.count('include_graphs:' + k)
+        if not hidden and not (jr and jr[1]):
+            acc.count('include_judged')
+            acc.count('include_judged_lrec' if lrec else 'include_judged_clean')
+            # the verdict depends on looking into the includes / bases (all of them; those that are one item of a longer sequence)
+            if left_recursive_rules(expanded(g, 'all'))[0] != lrec:
+                acc.count('include_decisive')
+            li = left_recursive_rules(expanded(g, 'items'))[0]
+            if li != lrec:
+                acc.count('include_item_decisive')
     if jr:
         joins, corner, decisive = jr
         battery = BATTERY_J
@@ -343,6 +523,13 @@ def check_graph(acc, g, origin):
                 acc.count('join_sep_decisive')
                 if not lrec:
                     acc.count('join_sep_decisive_clean')
+    mech = ''
+    if with_inc and left_recursive_rules(expanded(g, 'boxed'))[0] != lrec:
+        # finding on the unchanged tree (reported, .scratch/C16_include_in_choice_repro.py): an include that can match empty and sits inside
+        # a choice / group / closure that is followed by a call is not seen as able to match empty.  The verdict of this graph
+        # depends on it; its violations carry a mechanism suffix so that they can be listed as one finding.
+        mech = ':nullable-include-inside-choice'
+        acc.count('include_nullable_inside_choice_decisive')
     if lrec:
         acc.count('lrec_graphs')
         acc.nontriv(text)
@@ -366,7 +553,7 @@ def check_graph(acc, g, origin):
         acc.violation(f'detect/exc:{raised}', f'compiling with left recursion off raised {raised}: {text!r}', w)
     elif not hidden:
         if lrec and raised is None:
-            acc.violation('detect/missed', f'left recursion off: no GrammarError although {sorted(lrec)} reach themselves: {text!r}', w)
+            acc.violation('detect/missed' + mech, f'left recursion off: no GrammarError although {sorted(lrec)} reach themselves: {text!r}', w)
         elif not lrec and raised:
             acc.violation('detect/spurious', f'left recursion off: GrammarError although no rule reaches itself: {text!r}', w)
         else:
@@ -385,7 +572,7 @@ def check_graph(acc, g, origin):
             if r.name not in lrec:
                 asked = 'nomemo' in g.rule(r.name).decorators   # the grammar itself switched memoization off for this rule
                 if r.is_lrec or (not r.is_memo and not asked):
-                    acc.violation('flags/non-cyclic-rule-marked',
+                    acc.violation('flags/non-cyclic-rule-marked' + mech,
                                   f'rule {r.name!r} lies on no left-recursive cycle but is_lrec={r.is_lrec} is_memo={r.is_memo}: {text!r}', w)
     except AttributeError:
         acc.note('Rule.is_lrec / Rule.is_memo unobserved')
@@ -409,7 +596,7 @@ def check_graph(acc, g, origin):
     for backend, parse in backends:
       for start in [r.name for r in g.rules]:
         for t in battery:
-            heart = StepHeart(step_budget(g, t))
+            heart = StepHeart(step_budget(ga, t))
             out = 'ok'
             try:
                 parse(t, start=start, heart=heart)
@@ -421,7 +608,7 @@ def check_graph(acc, g, origin):
                 out = 'StepBudget' if type(e).__name__ == 'HeartDied' else 'exc:' + type(e).__name__
             acc.evaluations += 1
             acc.count('parses')
-            acc.peak('max_steps_ratio_x100', int(100 * heart.calls / step_budget(g, t)))
+            acc.peak('max_steps_ratio_x100', int(100 * heart.calls / step_budget(ga, t)))
             if out in ('ok', 'fail'):
                 continue
             if hidden:
@@ -436,10 +623,10 @@ def check_graph(acc, g, origin):
             ww = dict(w, start=start, text=t, outcome=out)
             if out in ('RecursionError', 'StepBudget'):
                 if f11:
-                    acc.violation('unbounded/scc-without-common-rule',
+                    acc.violation('unbounded/scc-without-common-rule' + mech,
                                   f'{backend}: {out} parsing {t!r} from {start!r}: {text!r}', dict(ww, backend=backend))
                 else:
-                    acc.violation('unbounded/' + out, f'{backend}: {out} parsing {t!r} from {start!r}: {text!r}', dict(ww, backend=backend))
+                    acc.violation('unbounded/' + out + mech, f'{backend}: {out} parsing {t!r} from {start!r}: {text!r}', dict(ww, backend=backend))
                 return  # one witness per graph is enough; the rest of the battery would only repeat it
             acc.violation('parse/' + out, f'{backend}: {out} parsing {t!r} from {start!r}: {text!r}', dict(ww, backend=backend))
 
@@ -458,7 +645,8 @@ def run_shard(desc, acc):
     else:
         for i in range(desc['n']):
             rng = random.Random(h64('C16', desc['seed'], desc['shard'], i))
-            g = random_graph(rng, joins=(i % 3 == 0))   # every third random graph draws joins/gathers as items too
+            # every third random graph draws joins/gathers as items too, every other third includes and based rules
+            g = random_graph(rng, joins=(i % 3 == 0), includes=(i % 3 == 1))
             check_graph(acc, g, {'mode': 'random', 'shard': desc['shard'], 'i': i})
             if i == 0:
                 acc.sample({'grammar': L.grammar_text(g), 'battery': BATTERY})
